@@ -70,9 +70,9 @@ def tight_number_comma_number(root: Any) -> bool:
 
 
 def ignored_before_blanks(root: Any) -> bool:
-    """An ignored line whose token is directly followed by blanks: the IGNORED terminal takes the rest of the line, blanks included."""
+    """An ignored line - or a block comment - whose token is directly followed by blanks: both terminals take the rest of the line, blanks included."""
     toks = [t for t in O.store_tokens(root.token_store) if t.raw_text != '']
-    return any(type(a).__name__ == 'Ignored' and isinstance(b, O.Whitespace) for a, b in zip(toks, toks[1:]))
+    return any(type(a).__name__ in ('Ignored', 'BlockComment') and isinstance(b, O.Whitespace) for a, b in zip(toks, toks[1:]))
 
 
 SELF_DELIMITING = ('Comma', 'LeftBrace', 'RightBrace', 'DblLeftBrace', 'DblRightBrace', 'LeftParen', 'RightParen', 'Tilde', 'Hash', 'At', 'AtAt', 'Asterisk',
@@ -116,6 +116,9 @@ def compare(root: Any, what: str, key: str) -> Optional[tuple[str, str]]:
     b2 = [t for t in O.store_tokens(again.token_store) if isinstance(t, O.BlockComment)]
     if len(b1) == len(b2):
         for x, y in zip(b1, b2):
+            if x.value != y.value and ignored_before_blanks(root):
+                return ('ignored-line-absorbs-following-blanks', f'after {what}: the block comment {x.raw_text!r} now stands directly before blanks on its line, '
+                        f'which its terminal (rest of the line) absorbs on re-parsing: value {x.value!r} -> {y.value!r}')
             if x.value != y.value:
                 return (f'comment-value:{key}', f'after {what}: a block comment with value {x.value!r} (printed {x.raw_text!r}) re-parses with value {y.value!r}')
     return None
